@@ -18,6 +18,7 @@
 
 #include <stdio.h>
 #include <stdlib.h>
+#include <math.h>
 
 #include "numeric.h"
 #include "algebra.h"
@@ -99,28 +100,26 @@ void SolveLSE(matrix *mx, dvector *solution)
 
   */
 
-  /* Reorganize the matrix in order to find the pivot != 0 in the first k row k column */
-  for(k = 0; k < X->row; k++){
-    if(FLOAT_EQ(X->data[k][k], 0, 1e-4)){
-      for(i = 0; i < X->row; i++){
-        if(FLOAT_EQ(X->data[i][k], 0, 1e-4) == 0){
-          /* move the row i to the null value */
-          for(j = 0; j < X->col; j++){
-            tmp = X->data[i][j];
-            X->data[i][j] = X->data[k][j];
-            X->data[k][j] = tmp;
-          }
-          break;
-        }
-        else{
-          continue;
-        }
-      }
-    }
-  }
-
   /* (*X).row is the number of X, so is equal to the number of unknowns variables */
   for(k = 0; k < X->row; k++){
+    /* Partial pivoting: bring the row with the largest entry of column k,
+     * among the rows not yet used as pivot, to row k
+     */
+    l = k;
+    for(i = k+1; i < X->row; i++){
+      if(fabs(X->data[i][k]) > fabs(X->data[l][k])){
+        l = i;
+      }
+    }
+
+    if((size_t)l != k){
+      for(j = 0; j < X->col; j++){
+        tmp = X->data[l][j];
+        X->data[l][j] = X->data[k][j];
+        X->data[k][j] = tmp;
+      }
+    }
+
     for(i = k+1; i < X->row; i++){
       if(FLOAT_EQ(X->data[i][k], 0, 1e-4) == 0){ /* if the value is not 0 */
         if(FLOAT_EQ(X->data[k][k], 0, 1e-4) == 1){
